@@ -26,7 +26,7 @@ SRC = vlib.BASE_SRC + [
 ]
 WRAPPED = ["write", "writev", "send", "sendto", "sendmsg", "read", "readv", "recv", "recvfrom", "recvmsg"]
 SPEC = "ByteStream"
-MC_ACTIONS = ["Send", "Enable", "Disable", "WritableCb", "PeerRead", "PeerWrite", "PeerClose", "RecvEnter",
+MC_ACTIONS = ["Send", "Enable", "Disable", "WritableCb", "CompleteExit", "PeerRead", "PeerWrite", "PeerClose", "RecvEnter",
               "RecvExit", "ReadZeroEnter", "ReadZeroExit"]
 INVS = ["StreamConserved", "SendCompleteOnlyWhenDrained", "Progress", "RecvInOrderOnce", "CloseOnceAfterData", "NoDeleteInCallback"]
 
@@ -52,12 +52,21 @@ def scan(tr):
     st = STATS
     running = False
     incb = False
+    incomp = False
+    insend = False
+    backlog = False         # a send was not written completely and the backlog has not been reported drained yet
     left = 0
     for line in open(tr):
         if line.startswith('{"e":"W"'):
             m = RE_W.match(line, 1 - 1) or RE_W.search(line)
             req, ret, again = int(m.group(1)), int(m.group(2)), m.group(4) == "true"
             st["writes"] = st.get("writes", 0) + 1
+            if insend and incomp and ret < req:
+                st["partial_sends_inside_send_complete"] = st.get("partial_sends_inside_send_complete", 0) + 1
+                if backlog:
+                    st["partial_sends_inside_send_complete_after_backlog"] = st.get("partial_sends_inside_send_complete_after_backlog", 0) + 1
+            if insend and ret < req:
+                backlog = True
             if 0 <= ret < req:
                 st["partial_writes"] = st.get("partial_writes", 0) + 1
             if again:
@@ -70,8 +79,13 @@ def scan(tr):
             st["max_send"] = max(st.get("max_send", 0), n)
             if not running:
                 st["sends_while_not_enabled"] = st.get("sends_while_not_enabled", 0) + 1
+            insend = True
             if incb:
                 st["sends_inside_receive_callback"] = st.get("sends_inside_receive_callback", 0) + 1
+            if incomp:
+                st["sends_inside_send_complete_callback"] = st.get("sends_inside_send_complete_callback", 0) + 1
+        elif line.startswith('{"e":"SendRet"'):
+            insend = False
         elif line.startswith('{"e":"Recv"'):
             n = int(RE_RECV.search(line).group(1))
             incb = True
@@ -85,7 +99,7 @@ def scan(tr):
         elif line.startswith('{"e":"Init"'):
             running = '"tcp":true' in line
             left = 0
-            incb = False
+            incb = incomp = insend = backlog = False
             st["executions"] = st.get("executions", 0) + 1
         elif line.startswith('{"e":"Enable"'):
             running = True
@@ -97,7 +111,11 @@ def scan(tr):
             st["local_disconnects"] = st.get("local_disconnects", 0) + 1
             if incb:
                 st["disconnects_inside_receive_callback"] = st.get("disconnects_inside_receive_callback", 0) + 1
+        elif line.startswith('{"e":"CompleteRet"'):
+            incomp = False
+            backlog = False
         elif line.startswith('{"e":"Complete"'):
+            incomp = True
             st["send_complete_notifications"] = st.get("send_complete_notifications", 0) + 1
 
 
@@ -157,7 +175,7 @@ def scale_ops(ops, unit):
         o = dict(o)
         if "n" in o:
             o["n"] = o["n"] * unit
-        if o.get("o") == "pass":
+        if o.get("o") in ("pass", "hook"):
             if o.get("c", -1) > 0:
                 o["c"] = o["c"] * unit
             if "in" in o:
@@ -180,8 +198,46 @@ def from_model(beh, transport, buf, unit):
     return {"t": transport, "thr": beh["thr"] * unit, "buf": buf, "ops": finish(scale_ops(beh["ops"], unit), tcp)}
 
 
+def stream_exec(rnd, transport, buf):
+    """chunked streaming to a slow reader: the next chunk (and other calls) are issued from inside the send-complete /
+    receive callbacks while a backlog exists, so re-entrant sends are partial or hit EAGAIN"""
+    tcp = transport.startswith("tcp")
+    if tcp:
+        chunk = rnd.choice([rnd.randint(1, 2000), rnd.randint(200000, 900000), rnd.randint(2000000, 3500000)])
+    elif transport == "pipe":
+        chunk = rnd.choice([rnd.randint(1, 300), rnd.randint(4097, 20000), rnd.randint(60000, 200000)])
+    else:
+        chunk = rnd.choice([rnd.randint(1, 300), rnd.randint(2000, 20000), rnd.randint(100000, 400000)])
+    ops = []
+    if not tcp:
+        ops.append({"o": "enable"})
+    inner = [{"o": "send", "n": max(1, chunk + rnd.randint(-chunk // 2, chunk // 2))} for _ in range(rnd.randint(1, 2))]
+    if not tcp and rnd.random() < 0.3:
+        inner.insert(rnd.randint(0, len(inner)), {"o": rnd.choice(["disable", "enable"])})
+    ops.append({"o": "hook", "w": "complete", "in": inner, "times": rnd.randint(1, 5)})
+    if rnd.random() < 0.5:
+        rin = [{"o": "send", "n": rnd.randint(1, chunk)}]
+        if not tcp and rnd.random() < 0.4:
+            rin += [{"o": "disable"}, {"o": "send", "n": rnd.randint(1, chunk)}, {"o": "enable"}]
+        ops.append({"o": "hook", "w": "recv", "in": rin, "times": rnd.randint(1, 3)})
+    ops.append({"o": "send", "n": chunk})
+    for _ in range(rnd.randint(2, 14)):
+        r = rnd.random()
+        if r < 0.45:
+            ops.append({"o": "pass", "c": rnd.choice([-1, -1, 0, 3])})
+        elif r < 0.80:
+            ops.append({"o": "pread", "n": rnd.choice([rnd.randint(1, 64), rnd.randint(1, max(2, chunk // 3)), chunk])})
+        elif r < 0.92:
+            ops.append({"o": "pwrite", "n": rnd.randint(1, 5000)})
+        else:
+            ops.append({"o": "send", "n": rnd.randint(1, chunk)})
+    return {"t": transport, "thr": rnd.choice([0, 0, 2]), "buf": buf, "ops": finish(ops, tcp)}
+
+
 def rand_exec(rnd, transport, buf, big):
     """seeded random long script: sizes from 1 byte to several MB, all pacings, close at any point"""
+    if rnd.random() < 0.2:
+        return stream_exec(rnd, transport, buf)
     tcp = transport.startswith("tcp")
     prof = rnd.choice(["tiny", "mid", "big"] if big else ["tiny", "mid", "mid"])
     cap = {"tiny": 6, "mid": 9000, "big": 3000000}[prof]
@@ -279,7 +335,14 @@ def parse_replay(path):
         elif k == "RecvRet":
             stack.pop()
             stack[-1][-1]["c"] = e["c"]
-        elif k in ("Complete", "Close", "W", "R"):
+        elif k in ("Complete", "Close"):
+            p = {"o": "pass", "c": -1, "w": "complete" if k == "Complete" else "close", "in": []}
+            cur.append(p)
+            stack.append(p["in"])
+        elif k in ("CompleteRet", "CloseRet"):
+            if len(stack) > 1:
+                stack.pop()
+        elif k in ("W", "R"):
             if len(stack) == 1 and (not cur or cur[-1].get("o") != "pass"):
                 cur.append({"o": "pass", "c": -1})
         elif k == "Settled":
@@ -373,13 +436,14 @@ def model_checks(ctx, quick):
     ctx.tlc_mc(SPEC, "MC_BufferedFd.tla", "MC_quick.cfg", required_actions=MC_ACTIONS)
     ctx.tlc_mc(SPEC, "MC_BufferedFd.tla", "MC_quick_tcp.cfg", required_actions=["LocalDisconnect", "RunNextDelete", "ReadZeroEnter"])
     ctx.tlc_mc(SPEC, "MC_BufferedFd.tla", "MC_asfound.cfg", expect="Progress", coverage=False)
-    bugs = [("MC_bug_directq.cfg", "StreamConserved"), ("MC_bug_complete.cfg", "SendCompleteOnlyWhenDrained"),
+    bugs = [("MC_bug_latedisarm.cfg", "Progress"), ("MC_bug_directq.cfg", "StreamConserved"), ("MC_bug_complete.cfg", "SendCompleteOnlyWhenDrained"),
             ("MC_bug_norepresent.cfg", "RecvInOrderOnce"), ("MC_bug_eofrepeat.cfg", "CloseOnceAfterData"),
             ("MC_bug_deletenow.cfg", "NoDeleteInCallback"), ("MC_bug_readall.cfg", "StreamConserved")]
     for cfg, inv in (bugs[:3] if quick else bugs):
         ctx.tlc_mc(SPEC, "MC_BufferedFd.tla", cfg, expect=inv, coverage=False)
     temporal_mc(ctx, "MC_live.cfg", False)
     temporal_mc(ctx, "MC_live_asfound.cfg", True)
+    temporal_mc(ctx, "MC_live_latedisarm.cfg", True)
     if not quick:
         temporal_mc(ctx, "MC_live_tcp.cfg", False)
         for cfg in ("MC_thorough.cfg", "MC_thorough_k2.cfg", "MC_thorough_tcp.cfg"):
@@ -437,7 +501,8 @@ def binding(ctx, exe, quick, rnd):
     if not ctx.violations:
         for k in ("partial_writes", "eagain_writes", "sends_while_not_enabled", "re_presentations_with_later_data", "peer_close_reports",
                   "local_disconnects", "sends_inside_receive_callback", "disconnects_inside_receive_callback",
-                  "send_complete_notifications"):
+                  "send_complete_notifications", "sends_inside_send_complete_callback",
+                  "partial_sends_inside_send_complete_after_backlog"):
             if STATS.get(k, 0) == 0:
                 raise vlib.Infra("vacuity guard: no recorded execution reached '%s'" % k)
         if STATS.get("max_send", 0) < 1000000:
